@@ -33,7 +33,12 @@ import jax
 import jax.tree_util as jtu
 import numpy as np
 
-from jax2onnx.plugins._patching import AssignSpec, MonkeyPatchSpec, apply_patches
+from jax2onnx.plugins._patching import (
+    AssignSpec,
+    MonkeyPatchSpec,
+    apply_patches,
+    owns_attr,
+)
 from jax2onnx.plugins.jax._autodiff_utils import backfill_missing_transpose_rules
 from jax2onnx._compat.jax import (
     NOT_MAPPED,
@@ -1400,9 +1405,10 @@ def apply_monkey_patches() -> Iterator[None]:
                 st = _PATCH_STATE.get(key)
                 if st is None:
                     orig = getattr(tgt, attr)
+                    owned = owns_attr(tgt, attr)
                     new = patch_fn(orig)
                     setattr(tgt, attr, new)
-                    _PATCH_STATE[key] = {"orig": orig, "count": 1}
+                    _PATCH_STATE[key] = {"orig": orig, "owned": owned, "count": 1}
                 else:
                     st["count"] += 1
                 touched.append(key)
@@ -1416,7 +1422,12 @@ def apply_monkey_patches() -> Iterator[None]:
             if st["count"] == 0:
                 tgt, attr = key
                 try:
-                    setattr(tgt, attr, st["orig"])
+                    if st.get("owned", True):
+                        setattr(tgt, attr, st["orig"])
+                    else:
+                        # inherited attribute: remove the override instead of
+                        # pinning a copy of the base's attribute on the subclass
+                        delattr(tgt, attr)
                 finally:
                     _PATCH_STATE.pop(key, None)
 
